@@ -6,6 +6,7 @@ package merge
 import (
 	"bytes"
 	"sort"
+	"strconv"
 
 	"github.com/wrgl/wrgl/pkg/diff"
 	"github.com/wrgl/wrgl/pkg/objects"
@@ -18,18 +19,28 @@ type RowResolver struct {
 	nCols   int
 	nLayers int
 	rowDec  *objects.StrListDecoder
+	// colsChanged is true if any layer adds or removes a column. In that case
+	// two layers with the same row sum may still contribute different cells.
+	colsChanged bool
 }
 
 func NewRowResolver(db objects.Store, cd *diff.ColDiff, buf *diff.BlockBuffer) *RowResolver {
 	nCols := cd.Len()
 	nLayers := cd.Layers()
+	colsChanged := false
+	for layer := 0; layer < nLayers; layer++ {
+		if len(cd.Added[layer]) > 0 || len(cd.Removed[layer]) > 0 {
+			colsChanged = true
+		}
+	}
 	return &RowResolver{
-		buf:     buf,
-		cd:      cd,
-		nCols:   nCols,
-		nLayers: nLayers,
-		rows:    NewRows(nLayers),
-		rowDec:  objects.NewStrListDecoder(false),
+		buf:         buf,
+		cd:          cd,
+		nCols:       nCols,
+		nLayers:     nLayers,
+		rows:        NewRows(nLayers),
+		rowDec:      objects.NewStrListDecoder(false),
+		colsChanged: colsChanged,
 	}
 }
 
@@ -61,7 +72,11 @@ func (r *RowResolver) tryResolve(m *Merge) (err error) {
 	layersWhereRowIsRemoved := []int{}
 	for i, sum := range m.Others {
 		if sum != nil {
-			uniqSums[string(sum)] = i
+			key := string(sum)
+			if r.colsChanged {
+				key = strconv.Itoa(i) + ":" + key
+			}
+			uniqSums[key] = i
 		} else {
 			layersWhereRowIsRemoved = append(layersWhereRowIsRemoved, i)
 		}
@@ -167,7 +182,7 @@ func (r *RowResolver) Resolve(m *Merge) (err error) {
 			}
 		}
 	}
-	if nonNils == 0 || unchanges == nonNils {
+	if nonNils == 0 || (unchanges == nonNils && !(r.colsChanged && nonNils == len(m.Others))) {
 		// removed in all layers or never changed in the first place
 		m.Resolved = true
 		return
